@@ -45,6 +45,12 @@ Import ListNotations.
    `throw(X, "")` (e->msg becomes the empty string, as in a fresh record). *)
 Definition kind_of (o : nat) : nat := Nat.div o 10.
 
+(* how a handler (or a function) can be left early *)
+Inductive exit_kind : Type :=
+| XBreak        (* break;    in a catch handler: leaves the handler's for loop, the increment is skipped *)
+| XCont         (* continue; in a catch handler: goes to the increment (X = NULL), the loop then ends   *)
+| XReturn.      (* return;   from the enclosing function (a PCall body, a Show method, the program)     *)
+
 Inductive prog : Type :=
 | PSkip                                         (* ;                                          *)
 | PTick (n : nat)                               (* an observable statement                     *)
@@ -55,6 +61,9 @@ Inductive prog : Type :=
                                                    method may contain complete try/catch blocks, and may throw) *)
 | PTry (body : prog) (filters : list nat) (handler : prog)
                                                 (* try { body } catch (e in filters) { handler } *)
+| PExit (k : exit_kind)                         (* break; / continue; / return;  — see [exits_ok] for where
+                                                   they may stand (never so as to leave a try BODY: that
+                                                   is the documented misuse)                           *)
 | PCall (p : prog).                             (* f(); where the body of f is p — dynamic nesting.
                                                    In the model a call is inlining, so lexical and
                                                    dynamic nesting coincide; the two C harnesses
@@ -72,8 +81,8 @@ Inductive event : Type :=
    buffers[0 .. depth-1] is kept as a stack (head = buffers[depth-1]); entries at and above
    [depth] are never read by the C code (exception_try writes buffers[depth-1] after depth++,
    Exception_Buffer reads buffers[depth-1]), so the stack is the whole observable content and
-   [depth] is its length.  A jump buffer is named by the depth at which its try frame was
-   entered (= its position on the C stack among the live try frames). *)
+   [depth] is its length.  A jump buffer is named by 1 + the depth at which its try frame was
+   entered (= its position on the C stack among the live try frames; 0 is the NULL pointer). *)
 Record mstate : Type := MS {
   obj : option nat;       (* NULL before the first throw *)
   msg : nat;
@@ -89,7 +98,13 @@ Inductive mout : Type :=
 | MJump (target : nat)            (* longjmp( *buffers[depth-1], 1) in flight                     *)
 | MDied (o : option nat) (m : nat)(* Exception_Error: "Uncaught <obj>" + msg on stderr, exit(EXIT_FAILURE) *)
 | MAbort                          (* "Exception Buffer Overflow/Underflow" + abort()             *)
-| MWild.                          (* undefined behaviour (eq on a NULL exception object)          *)
+| MWild                           (* undefined behaviour (eq on a NULL exception object)          *)
+| MExit (k : exit_kind).          (* break / continue / return on its way to the loop / function it leaves *)
+
+(* a function body ended by `return` has ended; a handler left by break/continue has ended its block *)
+Definition fn_end (r : mout) : mout := match r with MExit XReturn => MNormal | _ => r end.
+Definition handler_end (r : mout) : mout :=
+  match r with MExit XBreak | MExit XCont => MNormal | _ => r end.
 
 Section Machine.
 Variable max_depth : nat.         (* EXCEPTION_MAX_DEPTH *)
@@ -189,15 +204,16 @@ Fixpoint mrun (p : prog) (st : mstate) : list event * mout * mstate :=
          Formatting shows the arguments first (the harness puts the %$ argument in front, so the own
          message then overwrites from position 0 whatever a nested throw left: set_msg). *)
       let '(t1, r1, s1) := mrun f (throw_pre o st) in
-      match r1 with
+      match fn_end r1 with
       | MNormal =>
           let s2 := throw_post o m s1 in
           (t1, jump_or_die s2, s2)
-      | _ => (t1, r1, s1)              (* an exception escaped from the Show method: this throw never happens *)
+      | r => (t1, r, s1)               (* an exception escaped from the Show method: this throw never happens *)
       end
-  | PCall p => mrun p st
+  | PExit k => ([], MExit k, st)
+  | PCall p => let '(t, r, s) := mrun p st in (t, fn_end r, s)
   | PTry b fs h =>
-      let id := depth st in                              (* jmp_buf __env; *)
+      let id := S (depth st) in                          (* jmp_buf __env;  (its address: never NULL = 0) *)
       match exception_try id st with                     (* exception_try(&__env); *)
       | None => ([], MAbort, st)
       | Some s0 =>
@@ -219,7 +235,7 @@ Fixpoint mrun (p : prog) (st : mstate) : list event * mout * mstate :=
                   | (s4, CNull) => (t1, MNormal, s4)     (*      X isnt NULL; *)
                   | (s4, CBind k) =>
                       let '(t2, r2, s5) := mrun h s4 in  (*      X = NULL) { H } *)
-                      (t1 ++ EHandler k (msg s4) (depth s4) :: t2, r2, s5)
+                      (t1 ++ EHandler k (msg s4) (depth s4) :: t2, handler_end r2, s5)
                   | (s4, COut r) => (t1, r, s4)
                   end
               end
@@ -231,7 +247,10 @@ End Machine.
 
 (* ------------------------------------------------------------------ the reference *)
 
-Inductive rres : Type := RNormal | RRaised (k m : nat).
+Inductive rres : Type := RNormal | RRaised (k m : nat) | RExit (k : exit_kind).
+Definition rfn_end (r : rres) : rres := match r with RExit XReturn => RNormal | _ => r end.
+Definition rhandler_end (r : rres) : rres :=
+  match r with RExit XBreak | RExit XCont => RNormal | _ => r end.
 
 (* Structured semantics; [d] = number of try bodies around the current point; [c] = the message the
    thread's record holds when the construct starts.  The third component of the result is the
@@ -245,30 +264,47 @@ Fixpoint ref_run (d : nat) (c : nat) (p : prog) : list event * rres * nat :=
       let '(t1, r1, c1) := ref_run d c p in
       match r1 with
       | RNormal => let '(t2, r2, c2) := ref_run d c1 q in (t1 ++ t2, r2, c2)
-      | RRaised k m => (t1, RRaised k m, c1)
+      | _ => (t1, r1, c1)
       end
   | PThrow o m f =>
       let '(t1, r1, c1) := ref_run d c f in                 (* the message arguments are shown first *)
-      match r1 with
+      match rfn_end r1 with
       | RNormal => (t1, RRaised o (set_msg m c1), set_msg m c1)
-      | RRaised _ _ => (t1, r1, c1)
+      | r => (t1, r, c1)
       end
-  | PCall p => ref_run d c p
+  | PExit k => ([], RExit k, c)
+  | PCall p => let '(t, r, c') := ref_run d c p in (t, rfn_end r, c')
   | PTry b fs h =>
       let '(t1, r1, c1) := ref_run (S d) c b in
       match r1 with
       | RNormal => (t1, RNormal, c1)
       | RRaised k m =>
           if matches fs k
-          then let '(t2, r2, c2) := ref_run d c1 h in (t1 ++ EHandler k m d :: t2, r2, c2)
+          then let '(t2, r2, c2) := ref_run d c1 h in (t1 ++ EHandler k m d :: t2, rhandler_end r2, c2)
           else (t1, RRaised k m, c1)
+      | RExit k => (t1, r1, c1)           (* left a try body: excluded by [exits_ok] (misuse) *)
       end
+  end.
+
+(* Where break / continue / return may stand.  [ret]: no try body of the current function is open here
+   (a `return` would skip its exception_try_end: the misuse the documentation warns of); [brk]: we are
+   in a catch handler with no try body in between (break/continue then belong to the handler's for
+   loop).  A call, and a Show method, start a function of their own. *)
+Fixpoint exits_ok (ret brk : bool) (p : prog) : bool :=
+  match p with
+  | PSkip | PTick _ => true
+  | PExit XReturn => ret
+  | PExit _ => brk
+  | PSeq p q => exits_ok ret brk p && exits_ok ret brk q
+  | PThrow _ _ f => exits_ok true false f
+  | PCall p => exits_ok true false p
+  | PTry b _ h => exits_ok false false b && exits_ok ret true h
   end.
 
 (* number of try bodies nested inside each other (lexically or through calls) *)
 Fixpoint nesting (p : prog) : nat :=
   match p with
-  | PSkip | PTick _ => 0
+  | PSkip | PTick _ | PExit _ => 0
   | PThrow _ _ f => nesting f
   | PSeq p q => Nat.max (nesting p) (nesting q)
   | PCall p => nesting p
@@ -277,7 +313,7 @@ Fixpoint nesting (p : prog) : nat :=
 
 Fixpoint size (p : prog) : nat :=
   match p with
-  | PSkip | PTick _ => 1
+  | PSkip | PTick _ | PExit _ => 1
   | PThrow _ _ f => S (size f)
   | PSeq p q => S (size p + size q)
   | PCall p => S (size p)
@@ -327,23 +363,26 @@ Inductive eval : nat -> nat -> prog -> list event -> rres -> nat -> Prop :=
 | EvTick : forall d c n, eval d c (PTick n) [ETick n d] RNormal c
 | EvSeqNormal : forall d c p q t1 c1 t2 r c2,
     eval d c p t1 RNormal c1 -> eval d c1 q t2 r c2 -> eval d c (PSeq p q) (t1 ++ t2) r c2
-| EvSeqRaised : forall d c p q t1 k m c1,
-    eval d c p t1 (RRaised k m) c1 -> eval d c (PSeq p q) t1 (RRaised k m) c1
-| EvThrow : forall d c o m f t1 c1,             (* the arguments are shown, then o is raised *)
-    eval d c f t1 RNormal c1 ->
+| EvSeqStop : forall d c p q t1 r c1,           (* raised, or left by break/continue/return *)
+    eval d c p t1 r c1 -> r <> RNormal -> eval d c (PSeq p q) t1 r c1
+| EvThrow : forall d c o m f t1 r1 c1,          (* the arguments are shown, then o is raised *)
+    eval d c f t1 r1 c1 -> rfn_end r1 = RNormal ->
     eval d c (PThrow o m f) t1 (RRaised o (set_msg m c1)) (set_msg m c1)
-| EvThrowEscaped : forall d c o m f t1 k m' c1, (* showing an argument raised: that exception goes on instead *)
-    eval d c f t1 (RRaised k m') c1 ->
-    eval d c (PThrow o m f) t1 (RRaised k m') c1
-| EvCall : forall d c p t r c', eval d c p t r c' -> eval d c (PCall p) t r c'
+| EvThrowEscaped : forall d c o m f t1 r1 c1,   (* showing an argument raised: that exception goes on instead *)
+    eval d c f t1 r1 c1 -> rfn_end r1 <> RNormal ->
+    eval d c (PThrow o m f) t1 (rfn_end r1) c1
+| EvExit : forall d c k, eval d c (PExit k) [] (RExit k) c
+| EvCall : forall d c p t r c', eval d c p t r c' -> eval d c (PCall p) t (rfn_end r) c'
 | EvTryNormal : forall d c b fs h t c1,        (* nothing reaches this block: the handler stays out *)
     eval (S d) c b t RNormal c1 -> eval d c (PTry b fs h) t RNormal c1
 | EvTryHandled : forall d c b fs h t1 k m c1 t2 r c2, (* the body let k escape and the filter accepts it *)
     eval (S d) c b t1 (RRaised k m) c1 -> accepts fs k ->
-    eval d c1 h t2 r c2 -> eval d c (PTry b fs h) (t1 ++ EHandler k m d :: t2) r c2
+    eval d c1 h t2 r c2 -> eval d c (PTry b fs h) (t1 ++ EHandler k m d :: t2) (rhandler_end r) c2
 | EvTryPassed : forall d c b fs h t1 k m c1,   (* the filter does not accept k: outwards, untouched *)
     eval (S d) c b t1 (RRaised k m) c1 -> rejects fs k ->
-    eval d c (PTry b fs h) t1 (RRaised k m) c1.
+    eval d c (PTry b fs h) t1 (RRaised k m) c1
+| EvTryLeft : forall d c b fs h t1 k c1,       (* misuse: the body was left by break/continue/return *)
+    eval (S d) c b t1 (RExit k) c1 -> eval d c (PTry b fs h) t1 (RExit k) c1.
 
 (* [chain levels p]: p wrapped in try blocks, innermost first: levels = [(fs1,h1); (fs2,h2); ..]
    gives  try { try { p } catch (fs1) { h1 } } catch (fs2) { h2 } ... *)
